@@ -339,11 +339,15 @@ fn main() {
         // thread id and a per-thread sequence number
         let recs = std::sync::Arc::new(recs);
         let mut handles = Vec::new();
+        // all threads make their FIRST call at the same moment (a race in lazily initialised data shows at first use only)
+        let gate = std::sync::Arc::new(std::sync::Barrier::new(threads));
         for t in 0..threads {
             let recs = recs.clone();
+            let gate = gate.clone();
             handles.push(std::thread::spawn(move || {
                 let n = recs.len();
                 let mut v = Vec::with_capacity(n);
+                gate.wait();
                 if hammer > 0 {
                     let mine: Vec<usize> = (0..n).filter(|i| i % threads == t).collect();
                     let mut seq = 0usize;
